@@ -370,3 +370,131 @@ def c16(ctx):
     finish(ctx, "constant-time table selector on its complete domain (32 positions x 17 digits) on the assembly, reference and 32-bit backends: niels entry = (y-x, y+x, 2dxy) of [b 256^pos]B (row 0: 2xy) checked by TLC; "
            "fixed-base multiplication on 0,1,2,8,16,L-1,L,L+1,2^255-1,2^254,2^252-1, nibble-carry patterns, reduced and clamped random scalars; double-base multiplication for P in {B,-B,identity,order 2,order 8, [k]B+T_t for all t} "
            "x (s1,s2) in {0,1,2,L-1,2^252-1,2^252,random}^2: result coordinates k = s1 kP + s2, t = s1 tP computed by TLC", NUM_ASSUME)
+
+
+# ---------------------------------------------------------------- C20: constant-time behaviour (valgrind-lackey traces)
+
+CT_OPS = [  # (op of ctprobe, operation class, public shape)
+    ("NewKeyFromSeed", "NewKeyFromSeed", "seed32"),
+    ("GenerateKey", "GenerateKey", "reader32"),
+    ("Sign", "Sign", "msg77"),
+    ("SignerHash0", "PrivateKey.Sign/Hash(0)", "msg77"),
+    ("SignCtx", "PrivateKey.Sign/ctx", "msg77,ctx13"),
+    ("SignPh", "PrivateKey.Sign/ph", "digest64,ctx1"),
+    ("X25519Base", "X25519(Basepoint)", "scalar32"),
+    ("ScalarBaseMult", "ScalarBaseMult", "scalar32"),
+    ("EdPrivateKeyToX25519", "EdPrivateKeyToX25519", "priv64"),
+    ("EqualSame", "PrivateKey.Equal", "priv64,priv64"),
+    ("EqualDiffFirst", "PrivateKey.Equal", "priv64,priv64"),
+    ("EqualDiffMid", "PrivateKey.Equal", "priv64,priv64"),
+    ("EqualDiffLast", "PrivateKey.Equal", "priv64,priv64"),
+]
+
+
+# code whose instruction / address trace is the observation: the library, the packages it applies to
+# secret data (hashing, comparison, copying, zeroing) and the probe.  The Go memory manager and scheduler are not.
+CT_CODE_PREFIXES = ("github.com/oasisprotocol/ed25519", "golang.org/x/crypto", "crypto/", "crypto.", "bytes.", "internal/bytealg", "io.", "hash",
+                    "encoding/binary", "math/bits", "strconv.", "errors.", "main.", "runtime.memequal", "memeqbody", "runtime.memmove",
+                    "runtime.memclrNoHeapPointers", "runtime.cmpstring", "cmpbody", "runtime.duffzero", "runtime.duffcopy")
+
+
+def _build_ct(ctx, config):
+    import subprocess
+    tags, goarch = vlib.CONFIGS[config]
+    env = dict(os.environ)
+    env.update(vlib.GOENV)
+    if goarch:
+        env["GOARCH"] = goarch
+    out = os.path.join(ctx.work, "ctprobe_" + config)
+    p = subprocess.run(["go", "build", "-tags", tags, "-o", out, "./cmd/ctprobe"], cwd=vlib.HARNESS, env=env, stdout=subprocess.PIPE, stderr=subprocess.STDOUT, universal_newlines=True)
+    if p.returncode != 0:
+        raise Infra("ctprobe build failed (%s):\n%s" % (config, p.stdout[-3000:]))
+    env2 = dict(os.environ)
+    env2.update(vlib.GOENV)
+    flt = os.path.join(ctx.work, "ctfilter")
+    if not os.path.exists(flt):
+        p = subprocess.run(["go", "build", "-o", flt, "./cmd/ctfilter"], cwd=vlib.HARNESS, env=env2, stdout=subprocess.PIPE, stderr=subprocess.STDOUT, universal_newlines=True)
+        if p.returncode != 0:
+            raise Infra("ctfilter build failed:\n%s" % p.stdout[-3000:])
+    nm = subprocess.run(["go", "tool", "nm", "-n", "-size", out], env=env2, stdout=subprocess.PIPE, universal_newlines=True).stdout
+    addr = {}
+    ranges = []
+    for ln in nm.splitlines():
+        f = ln.split()
+        if len(f) < 4 or f[2] not in ("T", "t"):
+            continue
+        a, size, name = int(f[0], 16), int(f[1]), f[3]
+        if name in ("main.verifMarkBegin", "main.verifMarkEnd"):
+            addr[name] = f[0]
+        if name.startswith(CT_CODE_PREFIXES) and size > 0:
+            ranges.append((a, a + size))
+    if len(addr) != 2:
+        raise Infra("marker functions not found in ctprobe (%s)" % config)
+    rf = out + ".ranges"
+    with open(rf, "w") as fh:
+        for a, b in sorted(ranges):
+            fh.write("%x %x\n" % (a, b))
+    return out, flt, addr["main.verifMarkBegin"], addr["main.verifMarkEnd"], rf
+
+
+def _ct_run(args):
+    import subprocess, re
+    probe, flt, b, e, rf, op, secret = args
+    cmd = ("GOGC=off GOMAXPROCS=1 GODEBUG=asyncpreemptoff=1 setarch x86_64 -R valgrind --tool=lackey --trace-mem=yes --log-fd=9 "
+           "%s %s %s 9>&1 >/dev/null 2>/dev/null | %s %s %s %s" % (probe, op, secret, flt, b, e, rf))
+    p = subprocess.run(["bash", "-c", cmd], stdout=subprocess.PIPE, stderr=subprocess.STDOUT, universal_newlines=True, timeout=600)
+    m = re.search(r"records=(\d+) sha256=([0-9a-f]+)", p.stdout)
+    if not m:
+        return None, p.stdout[-500:]
+    return (int(m.group(1)), m.group(2)), ""
+
+
+@check("C20")
+def c20(ctx):
+    import random
+    from concurrent.futures import ThreadPoolExecutor
+    model_check(ctx, "CT.tla", "CT_ok.cfg")
+    for neg in ("CT_negcmp.cfg", "CT_negsel.cfg"):   # the early-exit comparison and the secret-indexed lookup must be refuted
+        ok, _ = model_check(ctx, "CT.tla", neg, expect_ok=False)
+        if ok:
+            raise Infra("model control failed: %s accepted" % neg)
+    configs = ["default", "noasm", "force32bit_appengine"] if not ctx.thorough else list(vlib.CONFIGS)
+    rnd = random.Random(ctx.seed)
+    secrets = ["00" * 32, "ff" * 32] + ["%064x" % rnd.getrandbits(256) for _ in range(1 if not ctx.thorough else 4)]
+    jobs, meta = [], []
+    for cfg in configs:
+        probe, flt, b, e, rf = _build_ct(ctx, cfg)
+        for op, cls, shape in CT_OPS:
+            ss = secrets if not op.startswith("Equal") else secrets[1:3]
+            for s in ss:
+                jobs.append((probe, flt, b, e, rf, op, s))
+                meta.append((cfg, op, cls, shape, s))
+        # determinism of the recorder: the same secret twice
+        jobs.append((probe, flt, b, e, rf, "NewKeyFromSeed", secrets[0]))
+        meta.append((cfg, "NewKeyFromSeed", "NewKeyFromSeed", "seed32", secrets[0] + "/repeat"))
+    with ThreadPoolExecutor(max_workers=vlib.NCPU) as ex:
+        res = list(ex.map(_ct_run, jobs))
+    trace = os.path.join(ctx.work, "ct.ndjson")
+    first = {}
+    with open(trace, "w") as f:
+        n = 0
+        for (cfg, op, cls, shape, s), (ob, err) in zip(meta, res):
+            if ob is None:
+                raise Infra("lackey run failed for %s %s: %s" % (cfg, op, err))
+            if s.endswith("/repeat"):
+                if first.get((cfg, op, s[:-7])) != ob:
+                    raise Infra("trace recorder is not deterministic for the SAME secret (%s %s)" % (cfg, op))
+                continue
+            first[(cfg, op, s)] = ob
+            n += 1
+            f.write(json.dumps({"id": n, "op": cls, "probe": op, "cfg": cfg, "shape": shape, "secret": op + ":" + s[:8], "records": ob[0], "sha": ob[1]}) + "\n")
+    ctx.log("lackey: %d executions recorded on %s" % (n, ",".join(configs)))
+    mism = validate_trace(ctx, "TraceCT.tla", "TraceCT.cfg", trace, shards=1, per_shard_workers=1,
+                          classify=lambda ev: "%s|%s|%s" % (ev["cfg"], ev["op"], ev["shape"]))
+    report_mismatches(ctx, mism)
+    finish(ctx, "each secret-handling operation (NewKeyFromSeed, GenerateKey, Sign pure/ctx/ph, PrivateKey.Sign, X25519 on the base point, ScalarBaseMult, EdPrivateKeyToX25519, PrivateKey.Equal on equal / "
+           "early / middle / late differing keys) executed under valgrind --tool=lackey for several secrets per public shape and configuration; the complete instruction + load/store address trace between two "
+           "markers (heap/stack addresses renamed by first appearance) must be identical for all secrets of a class: validated by TraceCT.tla; R1: 2-safety of the selector / comparison leakage models by "
+           "self-composition in TLC, with the early-exit comparison and the secret-indexed lookup refuted as controls",
+           ["valgrind's instruction-level emulation of this CPU is the observation: micro-architectural timing is out of scope", "crypto/sha512 and the Go runtime are inside the traced window and are required to be "
+            "secret-independent too (they are, on this toolchain)", "sampled secrets: all-zero, all-ones and seeded random ones"])
